@@ -165,15 +165,15 @@ PROPS["C13"] = dict(
                  "parseLeader/parseChunk/parseHead/parseBody steps are not under pyvc contract yet (no coroutine support for next(sub-generator) in the engine): bounded natively"],
     explanation="PROVED as generators under contract with the environment appending arbitrary bytes (and possibly closing the connection) at every wait: httping.parseLeader, one ARBITRARY turn of its line loop after any history of waits (a wait never consumes; a line is found from position 0 of the whole buffer, so a terminator straddling two reads is found; exactly line + terminator consumed; header stored as name / stripped value; empty line yields the headers; only HTTPException subclasses) -- contracts/c13_leader.py; the client-side Respondent.parseHead (fresh header mapping holding exactly the FINAL response's header block after any number of 100-continue responses; status, version, chunked, length rules incl. 204/304/1xx/HEAD; redirectant exactly for 300/301/302/303/307 with a Location; the event source of an event-stream response reads THIS response's body whatever an earlier response left behind -- contracts/c13_head_client.py); Requestant.parseBody and the client-side Respondent.parseBody (plus its read-until-close mode: body = everything received in order until the server closes): a length-delimited body is exactly the next L bytes of the stream, exactly those consumed, PrematureClosure only when closed short; a chunked body is the data chunks in order for any number of chunks; neither -> HTTPException -- contracts/c13_body.py. parseLine (the leaf of every HTTP parser) PROVED per step for symbolic buffers: a step that waits leaves the buffer untouched (idle-stutter); a step that yields a line "
                 "yields the bytes up to the EARLIEST terminator and consumes line+terminator; progress on b implies the same progress on b++e with rest++e (prefix-stability, relational "
-                "two-run VC; z3 with cvc5 taking the str.indexof queries z3 leaves unknown). Proved for eols=(CRLF,); for (CRLF, LF) the code searches by terminator precedence, which is "
-                "a recorded finding. " + HTTP_NOTE)
+                "two-run VC; z3 with cvc5 taking the str.indexof queries z3 leaves unknown). Proved for eols=(CRLF,) and (CRLF, LF) on the repaired tree (earliest terminator fa9054b, size-limit verdict a9835bd), and as ONE ARBITRARY TURN "
+                "of the loop after any history for all three terminator sets (the split-terminator state `tail`, c5ce28d). parseChunk as a generator under contract (contracts/c17_chunk.py). " + HTTP_NOTE)
 PROPS["C17"] = dict(
     contracts=["contracts.http_parse", "contracts.c17_chunk", "contracts.c13_body"], harness="harness.http_native:C17", level="other", trusted_base=HTTP_EXT,
     explanation="PROVED: parseChunk as a generator under contract with the environment appending arbitrary bytes at every wait (contracts/c17_chunk.py; parseLine/parseLeader by their callee contracts, no chunk extension): size = hex value of the stripped size line, rejected with HTTPException iff empty or not all hex digits; the chunk is exactly the first `size` bytes of the stream after the size line (it waits for them), exactly those are consumed, the line after the data must be empty, framing lines end with CRLF only; last chunk carries the parsed trailers. parseLine step contracts with eols=(CRLF,) PROVED (chunk-size and chunk-end lines). Chunk decode round trip packChunk -> parseChunk over random bodies, chunk partitions, "
                 "trailers and wire fragmentations, and rejection of non-plain-hex sizes: bounded natively. " + HTTP_NOTE)
 PROPS["C15"] = dict(
     contracts=["contracts.http_parse", "contracts.c15_events", "contracts.c13_head_client"], harness="harness.http_native:C15", level="other", trusted_base=HTTP_EXT,
-    explanation="PROVED: one ARBITRARY turn of EventSource.parseEvents as a generator under contract (contracts/c15_events.py; pending id/name and a list of data lines of any length arbitrary at the head of the turn; parseLine by callee contract with eols (CRLF, LF, CR)): a wait changes nothing; an empty line dispatches -- JOIN of the data lines, exactly one event {id, name, data} iff data is non-empty (parsed JSON when dictable), then name and data reset, id kept; comment lines change nothing; event/data/id/retry fields update exactly their slot with the value minus ONE leading space, data appended as the LAST line; unknown fields ignored; no event is queued except by a dispatch; the run ends only after the dispatch on a closed connection. parseLine step contracts with eols=(CRLF, LF, CR) (earliest-terminator and prefix-stability clauses: both are recorded findings on this tree). Event dispatch against an SSE reference "
+    explanation="PROVED: one ARBITRARY turn of EventSource.parseEvents as a generator under contract (contracts/c15_events.py; pending id/name and a list of data lines of any length arbitrary at the head of the turn; parseLine by callee contract with eols (CRLF, LF, CR)): a wait changes nothing; an empty line dispatches -- JOIN of the data lines, exactly one event {id, name, data} iff data is non-empty (parsed JSON when dictable), then name and data reset, id kept; comment lines change nothing; event/data/id/retry fields update exactly their slot with the value minus ONE leading space, data appended as the LAST line; unknown fields ignored; no event is queued except by a dispatch; the run ends only after the dispatch on a closed connection. parseLine with eols=(CRLF, LF, CR) PROVED from entry, resumed after a wait, and for one arbitrary turn after any history (a CRLF split across reads is ONE terminator; contracts/http_parse.py); the two-run prefix-stability VC for three terminators is beyond both solvers and not registered. Event dispatch against an SSE reference "
                 "written from the ABNF, plain and chunked transport, all line-terminator mixes, fragmentations: bounded natively. " + HTTP_NOTE)
 PROPS["C16"] = dict(
     contracts=["contracts.http_parse", "contracts.c17_chunk", "contracts.c13_body", "contracts.c13_leader", "contracts.c16_bare", "contracts.c15_events"], harness="harness.http_native:C16", level="other", trusted_base=HTTP_EXT,
@@ -187,7 +187,8 @@ PROPS["C14"] = dict(
               "contract (round trip Requester.build -> Requestant.parse -> Server.buildEnviron) for the client-side builder and the urllib/json/str.format chains",
     trusted_base=["EXT: httping.parseLine / parseLeader as incremental parsers (None until complete, then the line / header block), httping.parseRequestLine splits the start "
                   "line, urllib urlsplit / unquote / quote and str.lower / upper / replace uninterpreted, Hict a case-insensitive mapping, int(str) raises ValueError or returns a value"],
-    assumptions=["the client side (Requester.build, updateQargsQuery, packHeader) and the byte-level header/body parsing are NOT under contract: bounded tier",
+    assumptions=["client side: Requester.build is under contract up to the request target (contracts/c14_request.py) and updateQargsQuery for <= 2 arguments (contracts/c14_qargs.py); "
+                 "header packing, body / JSON / form encoding and the byte-level round trip are decided by the bounded tier only",
                  "buildEnviron: at most 2 received headers (symbolic names and values)"],
     explanation="PROVED: Requestant.parseHead starts every request from a fresh, empty header mapping that then holds exactly the parsed header block; stores the start line's method, "
                 "the unquoted url path and the query as received; version (1,0)/(1,1); chunked iff Transfer-Encoding is 'chunked'; length None / declared / 0 by the stated rules; "
@@ -278,7 +279,7 @@ PROPS["C20"] = dict(
     contracts=["contracts.memo_rx", "contracts.memo_size", "contracts.c20_rend", "contracts.c22_pick"], harness="harness.memo_native:C20", level="other",
     technique="contract-based deductive verification (pyvc) of Memoer.fuse (unbounded), _serviceOneReceived and _serviceOnceRxGrams (bounded-symbolic); bounded runtime "
               "contract (segment with the real rend, deliver in many orders with duplicates to the real receive path) for rend/pick and whole deliveries",
-    trusted_base=['EXT receive() returns any (gram, src); pick(gram) returns any (mid, vid, gn, gc) or raises MemoerError/ValueError/LookupError: the header parsing and the signature check inside pick/wiff/verify are NOT under contract (regex, base64 and pysodium: native tier only)', 'bytes.decode raises UnicodeDecodeError or returns DEC(bytes) (uninterpreted)'],
+    trusted_base=['EXT receive() returns any (gram, src); inside _serviceOneReceived pick(gram) is used by its contract (returns any (mid, vid, gn, gc) or raises MemoerError/ValueError/LookupError); pick itself is under contract per header code for base64 headers (contracts/c22_pick.py); wiff, the binary-header branch and verify (pysodium) are native tier only', 'bytes.decode raises UnicodeDecodeError or returns DEC(bytes) (uninterpreted)'],
     assumptions=["_serviceOneReceived / _serviceOnceRxGrams: at most 2 memo ids in flight, each with at most 2 stored grams (symbolic ids, numbers, bodies)",
                  "rend: base64 headers and four gram sizes per code (smallest admissible, +1, 200, 1000); binary (curt) headers, pick and signature verification are covered by the native tier only"],
     explanation="PROVED for every header code x base64/base2 x any requested size: the size setter leaves room for at least one body byte in the zeroth and in every later gram (Sizes/Pairs read from the real class body). PROVED for a memo of ANY length (loop invariant; every zeroth code x 4 gram sizes, base64): Memoer.rend emits grams whose bodies are consecutive, non-empty slices of the memo covering it exactly once in order, each behind the right head (and before its signature), and the count announced in gram 0 is exactly the number of grams (contracts/c20_rend.py; cvc5 decides the nested-substring obligations). PROVED, unbounded: Memoer.fuse returns a memo only when every gram number below the count is present, and then exactly the stored bodies concatenated in numeric "
@@ -300,7 +301,7 @@ PROPS["C22"] = dict(
     contracts=["contracts.memo_rx", "contracts.c22_pick"], harness="harness.memo_native:C22", level="other",
     technique="contract-based deductive verification (pyvc) of the table discipline of the receive side; bounded fault injection (single-byte mutations, truncations, random "
               "datagrams, second signer) on the real receive path for pick/wiff/verify",
-    trusted_base=['EXT receive() returns any (gram, src); pick(gram) returns any (mid, vid, gn, gc) or raises MemoerError/ValueError/LookupError: the header parsing and the signature check inside pick/wiff/verify are NOT under contract (regex, base64 and pysodium: native tier only)', 'bytes.decode raises UnicodeDecodeError or returns DEC(bytes) (uninterpreted)'],
+    trusted_base=['EXT receive() returns any (gram, src); inside _serviceOneReceived pick(gram) is used by its contract (returns any (mid, vid, gn, gc) or raises MemoerError/ValueError/LookupError); pick itself is under contract per header code for base64 headers (contracts/c22_pick.py); wiff, the binary-header branch and verify (pysodium) are native tier only', 'bytes.decode raises UnicodeDecodeError or returns DEC(bytes) (uninterpreted)'],
     assumptions=["at most 2 memo ids in flight, each with at most 2 stored grams", "cryptographic soundness is assumed of pysodium"],
     explanation="PROVED on arbitrary gram bytes, per header code of the real table and for unknown codes (base64 headers; contracts/c22_pick.py): Memoer.pick raises only MemoerError/ValueError/LookupError; refuses short grams, unknown codes and -- when signatures are required -- every unsigned code; returns the mid / signer / number / count fields of the header and leaves exactly the body; for a code with a signature it returns ONLY after verify(signer named by the gram, last az bytes, everything before them) returned, and verify\'s exception propagates. PROVED, bounded-symbolic: whatever pick() raises among MemoerError/ValueError/LookupError, _serviceOneReceived returns True and touches no table (invalid grams are "
                 "dropped, nothing escapes); the signer id and source recorded for a memo id are the FIRST ones (a later gram, valid or not, cannot re-bind them); the memo "
